@@ -178,5 +178,7 @@ NATIVE_LITERALS = [
 ]
 
 PROV_TYPES = ["Revision", "Quotation", "PrimarySource", "Person", "Organization",
-              "SoftwareAgent", "Plan", "Collection", "EmptyCollection", "Bundle"]
+              "SoftwareAgent", "Plan", "Collection", "EmptyCollection", "Bundle",
+              "Person", "Plan", "Collection", "Organization",
+              "Entity", "Agent", "Activity"]  # base record kinds too (rare)
 PROV_EXTRA_ATTRS = ["type", "label", "value", "location", "role"]
